@@ -94,6 +94,12 @@ def main():
         dst.mkdir(parents=True, exist_ok=True)
         for f in ("patch.diff", "demo.py"):
             shutil.copyfile(seed / f, dst / f)
+        if "suite_ok" not in out and (dst / "meta.json").exists():
+            # --skip-suite on a re-evaluation: the patch is unchanged, keep the recorded suite result
+            prev = json.loads((dst / "meta.json").read_text()).get("evaluation", {})
+            for k in ("suite_ok", "suite_stable_missing"):
+                if k in prev:
+                    out[k] = prev[k]
         meta["evaluation"] = {k: v for k, v in out.items() if k not in ("seed",)}
         meta["what_i_ran"] = (f"tools/eval_seed.py {args.seed}: scratch copy of /repo; demo.py on the clean copy (exit {out.get('demo_clean_exit')}), "
                               f"patch applied, demo.py again (exit {out.get('demo_patched_exit')}), pinned test suite on the patched copy "
